@@ -37,7 +37,7 @@ PLAN = {
 
 
 # clauses whose antecedent assumes that unobservable internal steps settled within the harness's pause
-TIMING_CLAUSES = {"strictGated", "noRetryAfterCancelledWait", "noHoldUp"}
+TIMING_CLAUSES = {"strictGated", "noRetryAfterCancelledWait", "noHoldUp", "usable", "terminates"}   # (the last two rest on the harness's own watchdogs)
 
 
 def mc_cfg(fam, items, c, n, export):
